@@ -97,7 +97,8 @@ def main():
                              "--budget", str(budget)], env=e2, timeout=3600)
             kinds = re.findall(r"^  (\S+) \[(\S+)\]", so, re.M)
             det[pid] = {"rc": rc, "wall": round(time.time() - t0, 1),
-                        "kinds": sorted({f"{k}[{c}]" for k, c in kinds})[:8],
+                        "kinds": sorted({f"{k}[{c}]" for k, c in kinds
+                                         if k != "PROBE-ZERO"})[:8],
                         "violations": so.count("VIOLATION property=")}
             if rc not in (0, 1):
                 det[pid]["tail"] = (so + se)[-300:]
